@@ -131,6 +131,15 @@ def shared_function_programs():
     b = IR.func("B", ["y", "x"], ["q"], cache=True, fid="shared_g", tname="G", olabels=["r1"])
     b["pmap"] = [["y", "x"], ["x", "y"]]      # current y feeds parameter x and vice versa (one with_inputs swap)
     out.append((IR.prog("top", [a, b]), [["x", "in.x"], ["y", "in.y"]], "shared-func/swapped-inputs"))
+    # a cached WAITER in a counting loop: the signal is produced once, the waiter's data input keeps changing; whether its
+    # one start is a real execution or a cache hit, it has consumed the signal and must not start again
+    setup = IR.normalize_node(dict(name="setup", kind="func", inputs=["seed"], outputs=["cfg", "ready"], ndata=1))
+    inc = IR.func("inc", ["count"], ["count"])
+    c2 = "inc.count(count=inc.count(count=in.count))"
+    check = IR.route("check", ["count"], ["inc", "END"], [["inc"]], dec_args=[[c2, ["END"]]])
+    snap = IR.normalize_node(dict(name="snapshot", kind="func", inputs=["count"], outputs=["snap"], wait_for=["ready"], cache=True))
+    for nodes in ([setup, inc, check, snap], [snap, check, inc, setup]):
+        out.append((IR.prog("top", [copy.deepcopy(n) for n in nodes], max_iter=12), [["seed", "in.seed"], ["count", "in.count"]], "cached-waiter-in-loop"))
     # same function, same outputs, same arguments in two graphs' worth of nodes: sharing an entry is fine
     a = IR.func("A", ["x"], ["p"], cache=True)
     out.append((IR.prog("top", [a, IR.func("D", ["p"], ["d"], cache=True)]), [["x", "in.x"]], "plain"))
